@@ -64,6 +64,11 @@ THEOREMS = [
   forall (fuel : nat) (buf : bytes) (ns ns' : list node),
   parse_boxes fuel buf = Ok ns -> Forall2 forces ns ns' ->
   puts_calc ns' = Ok buf /\\ lens_calc ns' = Ok (N.of_nat (length buf))"""),
+    ("C16_sanitizer_tree_keeps_headers", """
+  forall (p : bytes) (kids kids' : list node) (f g : N -> res N) (l : list unit),
+  moov_check p = Ok kids -> each_trak kids (shift_table f g) = Ok (kids', l) ->
+  puts_calc kids' = Ok (put_nodes kids') /\\ lens_calc kids' = Ok (nodes_encoded_len kids') /\\
+  nodes_encoded_len kids' = N.of_nat (length p)"""),
     ("C16_edited_moov_len", """
   forall (p : bytes) (kids : list node) (ops : list (nat * nat)) (i m : nat) (kids' : list node) (b : bytes),
   parse_moov p = Ok kids -> edit_trak i m (fst (run_ops ops 0 kids)) = Ok kids' ->
